@@ -47,7 +47,8 @@ type c16Item struct {
 	sub        string
 	cookie     string
 	err        error
-	mintErr    error // part "life": CreateSession refused the assertion
+	mintErr    error  // part "life": CreateSession refused the assertion
+	ckMaxAge   string // Max-Age attribute of the Set-Cookie line CreateSession wrote ("" = none)
 }
 
 func c16LoadVecs(t *testing.T, rep *Report) ([]*c16Vec, []*c16MapVec) {
@@ -183,13 +184,13 @@ func c16MintItem(it *c16Item) {
 		it.pristine, it.sub, it.err = c16MintTracking(it.minter, it.rng)
 		return
 	}
-	it.pristine, it.err = c16Mint(it.minter, it.assertion)
+	it.pristine, it.ckMaxAge, it.err = c16MintCookie(it.minter, it.assertion)
 	it.sub = it.expSubject
 }
 
 // c16CheckMinted verifies that the real token has the abstract shape the vector describes.
 func c16CheckMinted(it *c16Item, nowSec int64) error {
-	if it.lvec != nil {
+	if it.lvec != nil || it.mvec != nil {
 		m, err := c16PeekClaims(it.pristine)
 		if err != nil {
 			return err
@@ -199,10 +200,15 @@ func c16CheckMinted(it *c16Item, nowSec int64) error {
 			v, _ := n.Int64()
 			return v
 		}
-		mint := nowSec - it.lvec.In.Age
-		if num("iat") != mint || num("nbf") != mint || num("exp") != mint+it.lvec.Pred.Exp {
-			return fmt.Errorf("minted token times iat=%d nbf=%d exp=%d relative to the mint, the model of JWTSessionCodec.New says 0 0 %d (%s)",
-				num("iat")-mint, num("nbf")-mint, num("exp")-mint, it.lvec.Pred.Exp, c16LifeText(it.lvec))
+		mint, predExp, txt := nowSec-it.mintAge, int64(0), ""
+		if it.lvec != nil {
+			predExp, txt = it.lvec.Pred.Exp, c16LifeText(it.lvec)
+		} else {
+			predExp, txt = it.mvec.Pred.Exp, "configuration "+it.mvec.Cfg.String()
+		}
+		if num("iat") != mint || num("nbf") != mint || num("exp") != mint+predExp {
+			return fmt.Errorf("minted token times iat=%d nbf=%d exp=%d relative to the mint, the model of CreateSession (JWTSessionCodec.New, then the cookie provider) says 0 0 %d (%s)",
+				num("iat")-mint, num("nbf")-mint, num("exp")-mint, predExp, txt)
 		}
 		return nil
 	}
@@ -246,7 +252,10 @@ func c16ReplayTok(it *c16Item, now time.Time, res c16Result) map[string]any {
 	return map[string]any{"kind": "tok", "vector": it.vec, "cfg": it.vec.Cfg, "token": it.token, "cookie_name": it.cookie,
 		"now": now.Format(time.RFC3339Nano), "observed": res, "expect_subject": it.expSubject,
 		"expect_attrs": c16Expected(it.stmts, it.authn, false), "expect_attrs_by_name": c16Expected(it.stmts, it.authn, true),
-		"minted_session": it.vec.In.Src == "minted" && it.vec.In.Kind == "session"}
+		"minted_session": it.vec.In.Src == "minted" && it.vec.In.Kind == "session",
+		// a token this deployment's CreateSession minted is minted again by the tree under replay
+		"remint":     it.vec.In.Src == "minted" && it.vec.In.Kind == "session" && it.minter == it.d && it.vec.In.Mutation == "none",
+		"life_stmts": it.stmts, "life_authn": it.authn}
 }
 
 // c16JudgeTok applies the property's clauses to one presented token.  expect* describe the
@@ -318,7 +327,7 @@ func c16ReplayLife(it *c16Item, now time.Time, o c16Obs) map[string]any {
 func c16JudgeLife(rep *Report, key string, v *c16LifeVec, o c16Obs, expSubject string, expF, expN map[string][]string, replay func() map[string]any) {
 	switch {
 	case v.Class == "MustReject" && o.Ran && v.Why["tooOld"]:
-		rep.Violation(key, fmt.Sprintf("request treated as authenticated (wrapped handler ran) by a session token this SP issued %d s ago although the session lifetime is %d s; %s",
+		rep.Violation(key, fmt.Sprintf("request treated as authenticated (wrapped handler ran) by a session token this SP's CreateSession issued %d s ago although the session lifetime (the session codec's MaxAge) is %d s; %s",
 			v.In.Age, v.Cfg.Life, c16LifeText(v)), replay())
 		return
 	case v.Class == "MustReject" && o.Ran:
@@ -329,7 +338,7 @@ func c16JudgeLife(rep *Report, key string, v *c16LifeVec, o c16Obs, expSubject s
 		if o.Panic != "" {
 			what = "panic: " + strings.SplitN(o.Panic, "\n", 2)[0]
 		}
-		rep.Violation(key, fmt.Sprintf("session token returned by this deployment's CreateSession, presented %d s after issue (lifetime %d s) and before every end the IdP stated (%s), yields no session: %s",
+		rep.Violation(key, fmt.Sprintf("session token returned by this deployment's CreateSession, presented %d s after issue (lifetime %d s), before every end the IdP stated and before the cookie's age has run out (%s), yields no session: %s",
 			v.In.Age, v.Cfg.Life, c16LifeText(v), what), replay())
 		return
 	}
@@ -402,6 +411,10 @@ func TestC16(t *testing.T) {
 		"(LIFE) assertions with 0-2 AuthnStatements (SessionIndex present/absent, SessionNotOnOrAfter absent / before the mint / inside the lifetime / beyond it), " +
 		"Conditions and SubjectConfirmationData NotOnOrAfter in the same positions, minted by CreateSession and presented at 14 clock positions around the mint, " +
 		"the IdP-stated ends and mint + lifetime: nothing the assertion says may make the token authenticate a second or more past mint + lifetime.  " +
+		"Deployments whose session provider is built by hand with the two durations separated - CookieSessionProvider.MaxAge longer than JWTSessionCodec.MaxAge " +
+		"(lifetime + 7 h), shorter (half of it) or zero - mint through CreateSession as well (LIFE: a few assertion layouts at the same 14 clock positions; VEC: the " +
+		"minted tokens at 9 ages): the session lifetime is the codec's MaxAge whatever the cookie's Max-Age says; the token's exp and the Set-Cookie Max-Age " +
+		"attribute are compared with the model's (drift).  " +
 		"non-trivial = class MustAccept or MustReject"
 	vecs, maps := c16LoadVecs(t, rep)
 	if rep.Broken != "" {
@@ -425,6 +438,50 @@ func TestC16(t *testing.T) {
 		rep.Break("no vectors (VEC=%d MAP=%d LIFE=%d)", len(vecs), len(maps), len(lifes))
 		return
 	}
+	// the two durations of every configuration: class and seconds agree; the separated classes are all there,
+	// and tokens older than the session lifetime are presented while a longer cookie age is still running
+	// (counted from the vectors: what the model requires, not what the code does)
+	sepLife, sepTok := map[string]int{}, map[string]int{}
+	for _, v := range vecs {
+		if err := c16CfgSane(v.Cfg); err != nil {
+			rep.Break("%v", err)
+			return
+		}
+		if v.Cfg.separated() && v.In.Src == "minted" && v.In.Kind == "session" && v.In.Key == "this" && v.In.Iss == "eq" {
+			sepTok[v.Cfg.CookieAge]++
+			if v.Class == "MustReject" && v.Why["tooOld"] && v.In.Age < v.Cfg.CookieSecs {
+				sepTok["older than the lifetime inside a longer cookie age"]++
+			}
+		}
+	}
+	for _, v := range maps {
+		if err := c16CfgSane(v.Cfg); err != nil {
+			rep.Break("%v", err)
+			return
+		}
+	}
+	for _, v := range lifes {
+		if err := c16CfgSane(v.Cfg); err != nil {
+			rep.Break("%v", err)
+			return
+		}
+		if v.Cfg.separated() {
+			sepLife[v.Cfg.CookieAge]++
+			if v.Class == "MustReject" && v.Why["tooOld"] && v.In.Age < v.Cfg.CookieSecs {
+				sepLife["older than the lifetime inside a longer cookie age"]++
+			}
+			if v.Class == "MustAccept" && v.Cfg.CookieAge == "zero" {
+				sepLife["fresh with a browser-session cookie"]++
+			}
+		}
+	}
+	for _, c := range []string{"longer", "shorter", "zero", "older than the lifetime inside a longer cookie age"} {
+		if sepLife[c] == 0 || sepTok[c] == 0 {
+			rep.Break("vacuous: no vector for the separated durations, case %q (LIFE=%d VEC=%d)", c, sepLife[c], sepTok[c])
+			return
+		}
+	}
+	rep.Extra["cookie_age_separated_from_lifetime"] = map[string]any{"LIFE": sepLife, "VEC": sepTok}
 	if saml.MaxIssueDelay != c16TrkLife*time.Second {
 		rep.Break("saml.MaxIssueDelay is %v, the model assumes %d s for tracked-request tokens", saml.MaxIssueDelay, c16TrkLife)
 		return
@@ -572,6 +629,17 @@ func TestC16(t *testing.T) {
 					return
 				}
 			}
+			// the Max-Age attribute of the Set-Cookie line: no clause of the statement speaks about it, drift only
+			want, has := "", false
+			if it.lvec != nil {
+				want, has = c16CkText(it.lvec.Pred.CkMaxAge), true
+			} else if it.mvec != nil {
+				want, has = c16CkText(it.mvec.Pred.CkMaxAge), true
+			}
+			if has && it.ckMaxAge != want {
+				rep.DriftCase(it.key+":cookie", fmt.Sprintf("Set-Cookie Max-Age attribute %q, the model of CookieSessionProvider.CreateSession says %q (\"\" = no attribute)", it.ckMaxAge, want),
+					map[string]any{"cfg": it.minter.cfg, "codec_max_age_s": it.minter.cfg.Life, "cookie_max_age_s": it.minter.cfg.cookieMaxAge()})
+			}
 		} else {
 			c, err := c16Craft(it.vec.Cfg, it.vec.In, nowSec, it.rng)
 			if err != nil {
@@ -592,6 +660,24 @@ func TestC16(t *testing.T) {
 			return
 		}
 	}
+	// what CreateSession wrote as the cookie's Max-Age, per configuration of the two durations (record only)
+	ckSeen := map[string]map[string]int{}
+	for _, it := range items {
+		if it.minter == nil || it.mintErr != nil || (it.vec != nil && it.vec.In.Kind != "session") {
+			continue
+		}
+		c := it.minter.cfg
+		k := fmt.Sprintf("%s codec=%ds cookie=%ds", c, c.Life, c.cookieMaxAge())
+		if ckSeen[k] == nil {
+			ckSeen[k] = map[string]int{}
+		}
+		a := it.ckMaxAge
+		if a == "" {
+			a = "(no Max-Age attribute)"
+		}
+		ckSeen[k][a]++
+	}
+	rep.Extra["set_cookie_max_age_observed"] = ckSeen
 
 	// phase 2: present to the real middleware
 	var trkSessAccepted int64
@@ -616,6 +702,7 @@ func TestC16(t *testing.T) {
 	rep.Extra["vectors"] = map[string]int{"VEC": len(vecs), "MAP": len(maps), "LIFE": len(lifes)}
 	rep.Extra["now"] = now.Format(time.RFC3339Nano)
 	rep.Assume("signatures of crafted tokens use crypto/rand nonces (ECDSA, PSS); verdicts do not depend on them and replay files store the exact token")
+	rep.Assume("the session lifetime of the statement is JWTSessionCodec.MaxAge; CookieSessionProvider.MaxAge only says how long the browser is asked to keep the cookie: a token presented after a SHORTER cookie age has run out is left open (DontCare), the Set-Cookie Max-Age attribute is compared with the model as drift")
 	rep.Assume("the tracked-request codec refusing session tokens is checked as conformance with the model (drift), not as a C16 violation: the statement has no clause about it")
 	if rep.Classes["MustAccept"] == 0 || rep.Classes["MustReject"] == 0 {
 		rep.Break("vacuous: no MustAccept or no MustReject vectors")
@@ -811,6 +898,7 @@ func init() {
 			LifeStmts     [][]c16ConcAttr     `json:"life_stmts"`
 			LifeAuthn     []string            `json:"life_authn"`
 			LifeEnds      c16LifeEnds         `json:"life_ends"`
+			Remint        bool                `json:"remint"`
 		}
 		if err := json.Unmarshal(raw, &r); err != nil {
 			t.Fatal(err)
@@ -835,6 +923,17 @@ func init() {
 			var v c16Vec
 			if err := json.Unmarshal(r.Vector, &v); err != nil {
 				t.Fatal(err)
+			}
+			if r.Remint {
+				// minted again by the code under test, age seconds before now (the token string of a changed
+				// mint would prove nothing on another tree)
+				saml.TimeNow = func() time.Time { return time.Unix(now.Unix()-v.In.Age, int64(now.Nanosecond())) }
+				tok, err := c16Mint(d, c16BuildAssertion(&r.ExpectSubject, true, r.LifeStmts, r.LifeAuthn))
+				saml.TimeNow = func() time.Time { return now }
+				if err != nil {
+					return v.Class == "MustAccept", fmt.Sprintf("class=%s CreateSession: %v", v.Class, err)
+				}
+				hdr = r.CookieName + "=" + tok
 			}
 			res := c16Result{CookieName: r.CookieName}
 			res.Obs = c16Request(d, hdr, nil, d.m.RequireAccount)
